@@ -171,7 +171,11 @@ def run(tier, seed, replay=None):
                 hdr = w.header()
             finally:
                 w.close()
-    K.validate_family(ctx, PID, walks, "line4", hdr, "tamper-walk", NONTRIVIAL)
+    # (one JVM per few walks: a thorough walk alters every byte and is thousands of events long)
+    step = 15 if tier == "quick" else 2
+    for i in range(0, len(walks), step):
+        K.validate_family(ctx, PID, walks[i:i + step], "line4", hdr, "tamper-walk" + ("[%d]" % (i // step) if step < 15 else ""),
+                          NONTRIVIAL, timeout=1800 if tier == "quick" else 10000)
     e2e = []
     for i, (g1, g2) in enumerate([(1, 1), (2, 2)] if tier == "quick" else [(1, 1), (1, 2), (2, 1), (2, 2), (1, 3), (3, 1)]):
         w = R.world("two_origins", seed * 100 + 70 + i)
